@@ -125,7 +125,10 @@ def run_case(col, case):
         rperms = [rperms[0], rperms[-1]] + rr.sample(rperms[1:-1], cap - 2)
     light = case['recursive'] and kind == 'real' and 'concrete' not in case      # nonlinear solver terms: fewer presentations (the others are covered in the other semirings)
     RP = z3.Int('rule_perm')
-    ne = 1 if TIER[0] == 'quick' else min(nr, 2)
+    # the larger presentation space of the thorough tier (edge orders of two rules, node reversal of every rule, ids independent of the
+    # renaming) is affordable where a presentation costs one sum_product; with arg-max forking (viterbi) it is not
+    small = TIER[0] == 'quick' or kind == 'viterbi'
+    ne = 1 if small else min(nr, 2)
     EP = [z3.Int(f'edge_perm{i}') for i in range(ne)]
     eperms = [presentations.perms(len(spec['rules'][i]['edges'])) for i in range(ne)]
     NR = [z3.Bool(f'node_rev{i}') for i in range(nr)]
@@ -158,9 +161,9 @@ def run_case(col, case):
     def body():
         choice = {'rule_perm': rperms[symx.choose(RP, 0, len(rperms), free=True)],
                   'edge_perm': {i: eperms[i][symx.choose(EP[i], 0, len(eperms[i]), free=True)] for i in range(len(EP))},
-                  'node_rev': {} if light else {i: symx.branch(NR[i], free=True) for i in range(nr if TIER[0] != 'quick' else min(nr, 2))},
+                  'node_rev': {} if light else {i: symx.branch(NR[i], free=True) for i in range(nr if not small else min(nr, 2))},
                   'rename': False if light else symx.branch(REN, free=True), 'value_swap': False if light else symx.branch(VSW, free=True)}
-        choice['explicit_ids'] = choice['rename'] if (TIER[0] == 'quick' or light) else symx.branch(EXP, free=True)
+        choice['explicit_ids'] = choice['rename'] if (small or light) else symx.branch(EXP, free=True)
         holder['choice'] = choice
         symx.ENGINE.notes.append(('_replay', {'choice': {k: (v if not isinstance(v, dict) else {str(a): b for a, b in v.items()}) for k, v in choice.items()}}))
         c = dict(case)
